@@ -72,19 +72,23 @@ func Reopen(dir string) *util.PNodeDB {
 func DropDir(dir string) { grocksdb.Drop(dir) }
 
 // StoreKinds enumerates the node-store stacks the checks run on.
-var StoreKinds = []string{"memory", "level-mem", "level-pndb", "pndb"}
+var StoreKinds = []string{"memory", "level-mem", "level-pndb", "pndb", "level-pndb-over-mem", "level-pndb-over-pndb"}
 
 // Store is a node store stack plus what is needed to clean it up.
 type Store struct {
 	Kind string
 	DB   util.NodeDB
 	Dir  string // persistent directory, if any
+	Dir2 string
 	P    *util.PNodeDB
 }
 
 func (s *Store) Close() {
 	if s.Dir != "" {
 		DropDir(s.Dir)
+	}
+	if s.Dir2 != "" {
+		DropDir(s.Dir2)
 	}
 }
 
@@ -101,6 +105,14 @@ func NewStore(kind string) *Store {
 	case "pndb":
 		p, dir := NewPNodeDB()
 		return &Store{Kind: kind, DB: p, Dir: dir, P: p}
+	case "level-pndb-over-mem":
+		// a persistent store as the upper level of another store
+		p, dir := NewPNodeDB()
+		return &Store{Kind: kind, DB: util.NewLevelNodeDB(p, util.NewMemoryNodeDB(), false), Dir: dir, P: p}
+	case "level-pndb-over-pndb":
+		p, dir := NewPNodeDB()
+		p2, dir2 := NewPNodeDB()
+		return &Store{Kind: kind, DB: util.NewLevelNodeDB(p, p2, false), Dir: dir, Dir2: dir2, P: p}
 	}
 	panic("unknown store kind " + kind)
 }
